@@ -110,6 +110,9 @@ func strHash(s string) uint64 {
 // a pure function of VERIF_SEED, the shard and the sub-check name.
 func rapidCheck(t *testing.T, name string, total int, prop func(*rapid.T)) {
 	t.Helper()
+	if t.Failed() {
+		t.FailNow()
+	}
 	n := perShard(total)
 	must(flag.Set("rapid.checks", strconv.Itoa(n)))
 	must(flag.Set("rapid.seed", strconv.FormatUint(mix(cfgSeed, uint64(cfgShard), strHash(name)), 10)))
@@ -124,6 +127,14 @@ func rapidCheck(t *testing.T, name string, total int, prop func(*rapid.T)) {
 func must(err error) {
 	if err != nil {
 		panic(err)
+	}
+}
+
+// sub runs a sub-test and stops the whole test when it failed.
+func sub(t *testing.T, name string, f func(t *testing.T)) {
+	t.Helper()
+	if !t.Run(name, f) {
+		t.FailNow()
 	}
 }
 
